@@ -27,7 +27,7 @@ import xmlrewrite as X  # noqa: E402
 from bind_export import cN, cbool  # noqa: E402
 
 from lxml import etree as LET  # noqa: E402
-from xsdata.formats.dataclass.parsers.handlers import XmlEventHandler  # noqa: E402
+from xsdata.formats.dataclass.parsers.handlers import LxmlEventHandler, XmlEventHandler  # noqa: E402
 
 F3_DOCS = [('<AW xmlns:p="urn:p" k="p:v" h="p://x"><c m="p:n" h="p://y"/></AW>', '<AW xmlns:q="urn:p" k="p:v" h="p://x"><c m="p:n" h="p://y"/></AW>'),
            ('<AW xmlns:p="urn:p" k="p:v"/>', '<AW k="p:v"/>')]
@@ -66,9 +66,9 @@ def case_term(info, cfg, a, b):
         ea=a["events_term"], eb=b["events_term"], oa=a["obs_term"], ob=b["obs_term"]))
 
 
-def pair(model, info, cfg, kind, d0, d1, what=None):
-    a = R.record(model, lambda: io.BytesIO(d0), cfg, XmlEventHandler)
-    b = R.record(model, lambda: io.BytesIO(d1), cfg, XmlEventHandler)
+def pair(model, info, cfg, kind, d0, d1, what=None, handler=XmlEventHandler):
+    a = R.record(model, lambda: io.BytesIO(d0), cfg, handler)
+    b = R.record(model, lambda: io.BytesIO(d1), cfg, handler)
     case = {"kind": kind, "cfg": list(cfg), "doc": d0.decode("utf-8", "replace")[:2500], "doc2": d1.decode("utf-8", "replace")[:2500],
             "what": what, "summary": {"a": R.summary(a), "b": R.summary(b)}}
     bad = [o.get("unsupported") for o in (a, b) if o.get("unsupported")] + \
@@ -179,6 +179,19 @@ def run_job(job):
         model = IP.Model(IP.full_source(e["src"]), e["root"])
         info = {"id": job["id"], "seed": job["seed"], "model": spec, "source": model.src,
                 "universe": model.ex.universe_term(), "nodefault": model.nodefault_term(), "root": cN(model.ex.cid[model.root])}
+        if spec["c08"] == "scoped_qname":
+            # QName / xsi:type values under nested re-bindings of prefixes and of the default namespace; the second
+            # document renames every declared prefix (declaration and uses together)
+            r = random.Random(job["seed"])
+            for _ in range(job.get("n", 12)):
+                sem = R.scoped_semantic(r)
+                d0 = R.print_doc(r, R.scoped_struct(sem, False)).encode()
+                d1 = R.print_doc(r, R.scoped_struct(sem, True)).encode()
+                cases.append(pair(model, info, (True, False, False), "rename_qname", d0, d1))
+                cases.append(pair(model, info, (True, False, False), "rename_qname", d0, d1, what="lxml", handler=LxmlEventHandler))
+            info["conv"] = model.ex.rec.table_term()
+            model.close()
+            return dict(info, cases=cases)
         for d0, d1 in F3_DOCS:
             cases.append(pair(model, info, (True, False, False), "f3", d0.encode(), d1.encode()))
         for d0, d1 in ATTR_DOCS:
